@@ -161,6 +161,12 @@ class Zygote:
                 os.close(fd)
             except OSError:
                 pass
+        # do not rely on EOF: processes forked later (simulated workers) may hold copies of the
+        # request pipe's write end
+        try:
+            os.kill(self.pid, signal.SIGKILL)
+        except OSError:
+            pass
         try:
             os.waitpid(self.pid, 0)
         except OSError:
